@@ -378,3 +378,19 @@ for _p in ("C11", "C13", "C15", "C05", "C04"):
 PROPS["C11"]["level_text"] += " STALE READS (EdsProps/L3RV over EdsModel/ClusterRV: resourceVersion + history of the ExtendedDaemonSet object): RV_stale_eds_untouched (a reconcile deciding from an earlier stored value never changes the stored object: status, spec, annotations, version), RV_stale_is_faulty_step (it is the L3 faulty step that drops every write to the object, taken in the world seen through the stale value), history invariants along runs with stale reconciles."
 PROPS["C15"]["level_text"] += " RV_canary_nodes_kept(_history): canary nodes selected earlier are kept by reconciles that read a stale ExtendedDaemonSet (the theorem behind clause C15.selection-kept-on-stale-read)."
 PROPS["C13"]["level_text"] += " With stale reads (EdsProps/L3RV): RV_one_per_template, RV_names_nodup, RV_annot_gen still hold along any run; 'never deletes the replica set matching the stored spec.template' does NOT (RV_stale_never_deletes_uptodate_false: deletions are not guarded by the object's resourceVersion; observed on the real Reconcile in eds_reconcile, category observed:stale-read-deleted-replica-set-of-stored-template); strongest true variants RV_stale_never_deletes_*_partial and the recovery RV_stale_then_fresh (the next fresh reconcile leaves exactly one replica set for the stored template)."
+
+# EdsProps/Sync7 (seventh round): the theorems behind the newest whole-reconcile clauses
+for _p, _pat in (("C15", "re:^C15_keep_reconcile"), ("C04", "re:^C04_(list_growth_reconcile|active_serves_rest_sync)"),
+                 ("C10", "re:^C10_api_resources_"), ("C18", "re:^C10_api_resources_"), ("C09", "re:^C09_delete_bound_sync"),
+                 ("C02", "re:^C04_active_serves_rest_sync")):
+    PROPS[_p]["extra_theorems"] = PROPS[_p].get("extra_theorems", []) + [("EdsProps.Sync7", _pat)]
+PROPS["C15"]["level_text"] += " C15_keep_reconcile (EdsProps/Sync7): every real-Reconcile-level status keeps the nodes selected earlier that are still valid, also when the canary is re-targeted to another replica set (hypotheses: distinct node names, the up-to-date replica set's template fits the same nodes as spec.template; both shown necessary by decide)."
+PROPS["C04"]["level_text"] += " Sync7: C04_list_growth_reconcile, C04_active_serves_rest_sync (every creation of the active role is on a targeted, fit, non-canary node without pod; count <= min(candidates, slow-start budget)), C04_active_serves_rest_sync_partial (exact count and positivity when neither the LastFullSync nor the PodCreation gate fires and the strategy parses; both extra hypotheses shown necessary)."
+PROPS["C10"]["level_text"] += " C10_api_resources_sync / _clause (EdsProps/Sync7): every pod a whole sync creates carries the resources resolved from the node override, else the valid setting of this ExtendedDaemonSet selecting the node, else the template."
+
+# EdsModel/ClusterSettings + EdsProps/L3Settings (seventh round): the ExtendedDaemonsetSetting controller and user
+# edits of settings inside the cluster machine; "at most one valid setting per node" as an invariant of RUNS
+L3S = "EdsProps.L3Settings"
+PROPS["C18"]["extra_theorems"] = PROPS["C18"].get("extra_theorems", []) + [(L3S, "re:^(C18_winner|C18_valid_iff_newest|L3S_)")]
+PROPS["C18"]["level_text"] += " HISTORY (EdsProps/L3Settings over EdsModel/ClusterSettings: reconcileSetting / applySetting / updateSetting / deleteSetting ops on top of the cluster machine): L3S_settled_at_most_one_valid (in every world reached by any run, in a namespace whose settings have all been reconciled since the last edit / node change, two valid settings matching one node are equal), L3S_winner / C18_winner (the valid one is the newest, ties by greater name), L3S_losers_error, L3S_valid_was_valid (provenance of every stored 'valid'), L3S_node_gets_at_most_one (the replica-set sync attaches at most one setting per node in EVERY world, and it is valid, of the namespace, references the ExtendedDaemonSet and matches), L3S_transient_overlap (before settling two valid settings CAN match one node: proved run; the settled hypothesis cannot be dropped), frame and lifting of the L3 invariants."
+PROPS["C18"]["trusted_base"] = PROPS["C18"].get("trusted_base", []) + ["EdsModel/ClusterSettings.lean: the effect of apply / update / delete of a setting and of the setting Reconcile's status write on the store is modelled by hand (status subresource: a spec update keeps the stored status)"]
